@@ -15,8 +15,7 @@ distance); (R15.2) a handler that discards DuplicatedNodeIdError is tolerated on
 (R15.3) the population is ordered best-first by the direction-aware Individual order exactly once, truncated by the prefix
 int(n * truncation_factor), an individual's better-set is the prefix before it (a tie with the best attaches to the best), and
 its parent is the argmin of the Euclidean norms to that set; (R15.4) the root gets distance inf, the mean ranges over the finite
-distances only, and the cut is the strict `>` against mean x distance_factor (x correction); (R15.5) the generator feeds the
-deme's current population and exports the mean of the same clustering (R09.4). (R15.7) individuals are never looked up by `==` (fitness equivalence) inside the clustering; (R15.8) every kept individual gets a node (no absolute-tolerance skip); the cut has no size special case and may be written vectorised."""
+distances only, and the cut is the strict `>` against mean x distance_factor (x correction); (R15.7) individuals are never looked up by `==` (fitness equivalence) inside the clustering; (R15.8) every kept individual gets a node (no absolute-tolerance skip); the cut has no size special case and may be written vectorised. (R15.9) no raw comparison of objective values inside the clustering module, and Individual.__eq__ is exactly fitness equivalence (index() / `== root` rest on it); a uuid identifier is injective only if clone() draws a new uuid (R15.1). R15.5 is no longer registered here: which population a generator hands to the clustering is C07 / C09 / C10's question."""
 NOTE = """The numeric statements of the property (the returned set equals the mathematical definition for every population, invariance under
 translation/scaling/order) are not decided; only that each step of the definition is implemented by the construct named above."""
 TECHNIQUE = "injectivity classification of identifier expressions + shape rules on the clustering steps (custom ast analysis), sibling cross-check with NumpyCache.get_key"
